@@ -25,6 +25,12 @@ def inject(p, cls, r):
         t0, t1, h = (gen.Fraction(x) for x in q["times"])
         q["times"] = [str(t0), str(t1), str((t1 - t0) * gen.Fraction(2, 3))] if (t1 - t0) > 0 else None
         return (q, 0) if q["times"] else None
+    if cls == "timestep_not_dividing_long":
+        # many steps: a relative tolerance on span / timestep would let these through
+        t0, t1, h = (gen.Fraction(x) for x in q["times"])
+        nlong = r.choice([20000, 36525, 100000, 250000])
+        q["times"] = [str(t0), str(t0 + nlong * h + h * r.choice([gen.Fraction(1, 10), gen.Fraction(1, 4), gen.Fraction(1, 2), gen.Fraction(1, 100)])), str(h)]
+        return q, 0
     if cls == "unknown_infectious":
         q["inf"] = q["inf"] + ["Zz"]
         return q, 0
@@ -182,12 +188,16 @@ def inject(p, cls, r):
         if any(ops[i]["name"] == "late" for i in sidx):
             return None
         ops.append({"op": "finalize"})
+        # calls that a finalised model accepts must not re-open it
+        for _ in range(r.choice([0, 0, 1, 2])):
+            ops.append(r.choice([{"op": "setdefaults", "params": {"beta": "1/2", "gamma": "1/4", "kappa": "1", "mu": "1/8"}},
+                                 {"op": "finalize"}, {"op": "setdefaults", "params": {}}]))
         ops.append(change)
         return q, len(ops)
     return None
 
 
-CLASSES = ["end_before_start", "timestep_not_dividing", "unknown_infectious", "unknown_population_compartment",
+CLASSES = ["end_before_start", "timestep_not_dividing", "timestep_not_dividing_long", "unknown_infectious", "unknown_population_compartment",
            "unknown_stratified_compartment", "unknown_flow_compartment", "output_for_unknown_compartment",
            "output_for_unknown_flow", "adjusting_unknown_flow", "unknown_filter_strata", "unknown_output_source",
            "adjustment_omits_stratum", "infectiousness_omits_stratum", "split_omits_stratum", "split_negative", "split_not_one",
